@@ -3,13 +3,14 @@
 -/
 import Synphot.Core.Observation
 import Synphot.Lemmas.Spectrum
+import Synphot.Lemmas.C06x
 import Synphot.Props.C03
 
 set_option linter.unusedSectionVars false
 set_option linter.unusedVariables false
 
 namespace Synphot.C06
-open Synphot
+open Synphot Synphot.C06x
 variable {K : Type} [Field K] [LinearOrder K] [IsStrictOrderedRing K]
 
 /-! ### the end-point classifier -/
@@ -169,5 +170,750 @@ theorem extrap_holds_end_value (t : Table K) (x : K) (hx : x < t.forceExtrap.pts
     (h0 : t.keepNeg = true ∨ 0 ≤ t.vals.headD 0) : t.forceExtrap.eval x = t.vals.headD 0 := by
   have := C03.eval_below t.forceExtrap x hx (by simpa [Table.forceExtrap] using h0)
   simpa [Table.forceExtrap] using this
+
+/-! ### grading: threshold -/
+
+/-- raising the threshold changes nothing except that a 'partial_notmost' may become 'partial_most' -/
+theorem grade_threshold_mono (st : Overlap) (z : Bool) (e t thr thr' : K) (h : thr ≤ thr') :
+    gradeVerdict st z e t thr' = gradeVerdict st z e t thr ∨
+      (gradeVerdict st z e t thr = .partialNotMost ∧ gradeVerdict st z e t thr' = .partialMost) := by
+  cases st <;> cases z <;> simp only [gradeVerdict, Bool.false_eq_true, if_false, if_true, true_or]
+  by_cases h1 : e / t < thr
+  · left; rw [if_pos h1, if_pos (lt_of_lt_of_le h1 h)]
+  · by_cases h2 : e / t < thr'
+    · right; rw [if_neg h1, if_pos h2]; exact ⟨rfl, rfl⟩
+    · left; rw [if_neg h1, if_neg h2]
+
+/-- 'full' and 'none' do not depend on the threshold -/
+theorem grade_threshold_irrelevant (st : Overlap) (z : Bool) (e t thr thr' : K) :
+    (gradeVerdict st z e t thr = .full ↔ gradeVerdict st z e t thr' = .full) ∧
+    (gradeVerdict st z e t thr = .none ↔ gradeVerdict st z e t thr' = .none) := by
+  rw [grade_full_iff, grade_full_iff, grade_none_iff, grade_none_iff]
+  exact ⟨Iff.rfl, Iff.rfl⟩
+
+/-- the boundary: an excluded fraction equal to the threshold is 'partial_notmost' (the code uses `<`) -/
+theorem grade_boundary (e t thr : K) (h : e / t = thr) : gradeVerdict .part false e t thr = .partialNotMost := by
+  simp only [gradeVerdict, Bool.false_eq_true, if_false, h, lt_irrefl]
+
+/-! ### `force` strings -/
+
+/-- which strings are which value: decided on the lower-cased string only -/
+theorem force_values (s : String) :
+    (Force.ofString s = .none ↔ s.toLower = "none") ∧
+    (Force.ofString s = .taper ↔ s.toLower = "taper") ∧
+    (Force.ofString s = .extrap ↔ s.toLower.startsWith "extrap" = true) ∧
+    (Force.ofString s = .invalid ↔
+      (s.toLower ≠ "none" ∧ s.toLower ≠ "taper" ∧ s.toLower.startsWith "extrap" = false)) := by
+  unfold Force.ofString
+  dsimp only
+  by_cases h1 : s.toLower = "none"
+  · have : ("none" : String).startsWith "extrap" = false := by decide
+    simp [h1, this]
+  · by_cases h2 : s.toLower = "taper"
+    · have : ("taper" : String).startsWith "extrap" = false := by decide
+      simp [h2, this]
+    · by_cases h3 : s.toLower.startsWith "extrap" = true
+      · simp [h1, h2, h3]
+      · simp [h1, h2, h3]
+
+/-- every string outside the accepted set is the invalid value, and conversely -/
+theorem force_invalid_iff (s : String) : Force.ofString s = .invalid ↔
+    (s.toLower ≠ "none" ∧ s.toLower ≠ "taper" ∧ s.toLower.startsWith "extrap" = false) :=
+  (force_values s).2.2.2
+
+/-- case is ignored: two strings with the same lower-casing are the same value -/
+theorem force_case_insensitive (s s' : String) (h : s.toLower = s'.toLower) :
+    Force.ofString s = Force.ofString s' := by
+  unfold Force.ofString; rw [h]
+
+/-! ### the classifier as a whole: `check_overlap(other)` in terms of the end-point status and the grading -/
+
+/-- other spectrum without a sampling set (unbounded): 'full'; otherwise a bandpass without one:
+'partial_notmost' — neither is sampled -/
+theorem classifier_unbounded (E : Env K) (P : OverlapPar K) (band src : Spec K) (bm om : Tree K)
+    (hbm : band.model = .ok bm) (hom : src.model = .ok om) :
+    (om.waveset P.mergeThr = .ok none → checkOverlap E P band src none = .ok .full) ∧
+    (∀ b, om.waveset P.mergeThr = .ok (some b) → bm.waveset P.mergeThr = .ok none →
+      checkOverlap E P band src none = .ok .partialNotMost) := by
+  constructor
+  · intro ho
+    simp only [checkOverlap, hbm, hom, ho, ok_bind'', Option.isNone_none, if_true]; rfl
+  · intro b ho hb
+    simp only [checkOverlap, hbm, hom, ho, hb, ok_bind'', Option.isNone_none, Option.isNone_some, if_true,
+      Bool.false_eq_true, if_false]; rfl
+
+/-- in the sampled case the answer IS the grading of the end-point status of
+(range of the bandpass's positive-throughput samples, range of the other spectrum), with the
+zero-at-both-ends shortcut and the excluded / total throughput exactly as `gradeVerdict` takes them -/
+theorem classifier_sampled (E : Env K) (P : OverlapPar K) (band src : Spec K) (bm om : Tree K) (x1 y1 b : List K)
+    (a1 a2 b1 b2 : K) (S : Sampled E P band src bm om x1 y1 b a1 a2 b1 b2) (v : Verdict)
+    (hv : checkOverlap E P band src none = .ok v) :
+    ∃ (z : Bool) (e tot : K), v = gradeVerdict (overlapStatus a1 a2 b1 b2) z e tot P.threshold ∧
+      (overlapStatus a1 a2 b1 b2 = .part →
+        ∃ ends, sampleTree E om (endPair x1) = .ok ends ∧
+          (z = true ↔ (shortcutKind om = true ∧ allNearZero P.allcloseAtol ends = true)) ∧
+          (z = false → integrateTrapz E bm x1 = .ok tot ∧ 0 < tot ∧ ∃ e1 e2,
+            (if a1 < b1 then integrateTrapz E bm [a1, b1] else .ok 0) = .ok e1 ∧
+            (if a2 > b2 then integrateTrapz E bm [b2, a2] else .ok 0) = .ok e2 ∧ e = e1 + e2)) := by
+  have h := (co_sampled_iff E P band src bm om x1 y1 b S.hbm S.hom S.ho S.hb S.hy a1 a2 b1 b2 S.h1 S.h2 S.h3 S.h4 v).mp hv
+  rcases h with ⟨hst, rfl⟩ | ⟨hst, rfl⟩ | ⟨hst, ends, he, h⟩
+  · exact ⟨false, 0, 1, by rw [hst]; rfl, by intro h'; rw [hst] at h'; cases h'⟩
+  · exact ⟨false, 0, 1, by rw [hst]; rfl, by intro h'; rw [hst] at h'; cases h'⟩
+  · rcases h with ⟨hk, hz, rfl⟩ | ⟨hc, tot, e1, e2, ht, hpos, he1, he2, rfl⟩
+    · refine ⟨true, 0, 1, by rw [hst]; rfl, fun _ => ⟨ends, he, ?_, ?_⟩⟩
+      · exact ⟨fun _ => ⟨hk, hz⟩, fun _ => rfl⟩
+      · intro h'; cases h'
+    · refine ⟨false, e1 + e2, tot, by rw [hst], fun _ => ⟨ends, he, ?_, ?_⟩⟩
+      · exact ⟨fun h' => (by cases h'), fun h' => absurd h' hc⟩
+      · intro _; exact ⟨ht, hpos, e1, e2, he1, he2, rfl⟩
+
+/-- 'none' exactly when the bandpass's positive-throughput sample range is disjoint from the other
+spectrum's range -/
+theorem classifier_none_iff (E : Env K) (P : OverlapPar K) (band src : Spec K) (bm om : Tree K) (x1 y1 b : List K)
+    (a1 a2 b1 b2 : K) (S : Sampled E P band src bm om x1 y1 b a1 a2 b1 b2) (v : Verdict)
+    (hv : checkOverlap E P band src none = .ok v) : v = .none ↔ (a2 < b1 ∨ b2 < a1) := by
+  obtain ⟨z, e, tot, rfl, _⟩ := classifier_sampled E P band src bm om x1 y1 b a1 a2 b1 b2 S v hv
+  rw [grade_none_iff, status_none_iff a1 a2 b1 b2 S.le_a S.le_b]
+
+/-- 'full' whenever the range is contained, and otherwise only for a partial end-point status when the other
+spectrum is a zero-ended table or a non-compound analytic model that is (within `allclose`) zero at the two
+ends of the bandpass's sampling set -/
+theorem classifier_full_iff (E : Env K) (P : OverlapPar K) (band src : Spec K) (bm om : Tree K) (x1 y1 b : List K)
+    (a1 a2 b1 b2 : K) (S : Sampled E P band src bm om x1 y1 b a1 a2 b1 b2) (v : Verdict)
+    (hv : checkOverlap E P band src none = .ok v) :
+    v = .full ↔ ((b1 ≤ a1 ∧ a2 ≤ b2) ∨
+      (¬ (b1 ≤ a1 ∧ a2 ≤ b2) ∧ ¬ (a2 < b1 ∨ b2 < a1) ∧ shortcutKind om = true ∧
+        ∃ ends, sampleTree E om (endPair x1) = .ok ends ∧ allNearZero P.allcloseAtol ends = true)) := by
+  obtain ⟨z, e, tot, rfl, hp⟩ := classifier_sampled E P band src bm om x1 y1 b a1 a2 b1 b2 S v hv
+  rw [grade_full_iff, status_full_iff, status_partial_iff]
+  constructor
+  · rintro (h | ⟨h, hz⟩)
+    · exact Or.inl h
+    · obtain ⟨ends, he, hzz, _⟩ := hp ((status_partial_iff a1 a2 b1 b2).mpr h)
+      obtain ⟨hk, ha⟩ := hzz.mp hz
+      exact Or.inr ⟨h.1, h.2, hk, ends, he, ha⟩
+  · rintro (h | ⟨h1, h2, hk, ends, he, ha⟩)
+    · exact Or.inl h
+    · obtain ⟨ends', he', hzz, _⟩ := hp ((status_partial_iff a1 a2 b1 b2).mpr ⟨h1, h2⟩)
+      rw [he] at he'; cases he'
+      exact Or.inr ⟨⟨h1, h2⟩, hzz.mpr ⟨hk, ha⟩⟩
+
+/-- the remaining cases are graded by (excluded throughput) / (total throughput) against the threshold,
+strictly: 'partial_most' iff the fraction is below it -/
+theorem classifier_partial_grade (E : Env K) (P : OverlapPar K) (band src : Spec K) (bm om : Tree K)
+    (x1 y1 b : List K) (a1 a2 b1 b2 : K) (S : Sampled E P band src bm om x1 y1 b a1 a2 b1 b2) (v : Verdict)
+    (hv : checkOverlap E P band src none = .ok v) (hne : v ≠ .full) (hnn : v ≠ .none) :
+    ∃ tot e1 e2, integrateTrapz E bm x1 = .ok tot ∧ 0 < tot ∧
+      (if a1 < b1 then integrateTrapz E bm [a1, b1] else .ok 0) = .ok e1 ∧
+      (if a2 > b2 then integrateTrapz E bm [b2, a2] else .ok 0) = .ok e2 ∧
+      (v = .partialMost ↔ (e1 + e2) / tot < P.threshold) ∧
+      (v = .partialNotMost ↔ ¬ (e1 + e2) / tot < P.threshold) := by
+  obtain ⟨z, e, tot, rfl, hp⟩ := classifier_sampled E P band src bm om x1 y1 b a1 a2 b1 b2 S v hv
+  have hst : overlapStatus a1 a2 b1 b2 = .part := by
+    cases h : overlapStatus a1 a2 b1 b2 with
+    | full => rw [h] at hne; exact absurd rfl hne
+    | none => rw [h] at hnn; exact absurd rfl hnn
+    | part => rfl
+  have hz : z = false := by
+    cases z with
+    | false => rfl
+    | true => rw [hst] at hne; exact absurd rfl hne
+  obtain ⟨ends, _, _, h3⟩ := hp hst
+  obtain ⟨ht, hpos, e1, e2, he1, he2, rfl⟩ := h3 hz
+  rw [hst]
+  exact ⟨tot, e1, e2, ht, hpos, he1, he2, grade_partial z (e1 + e2) tot P.threshold hz⟩
+
+/-! ### without force: the three-way outcome -/
+
+/-- without `force` the constructor's admission is decided by the verdict alone: 'full' admits the operand
+untouched and records no warning, either 'partial_*' raises `PartialOverlap`, 'none' raises `DisjointError`;
+an exception inside `check_overlap` is passed on -/
+theorem unforced_outcome (E : Env K) (P : OverlapPar K) (src band : Spec K) :
+    obsAdmit E P src band .none =
+      match checkOverlap E P band src Option.none with
+      | .ok .full => .ok (src, false)
+      | .ok .partialMost => .error .partialOverlap
+      | .ok .partialNotMost => .error .partialOverlap
+      | .ok .none => .error .disjointError
+      | .error e => .error e := by
+  unfold obsAdmit
+  cases checkOverlap E P band src Option.none with
+  | error e => rfl
+  | ok v => cases v <;> rfl
+
+/-- the same for the constructor itself: with the right operand classes a partial pair raises
+`PartialOverlap` and a disjoint pair `DisjointError`, whatever the binset -/
+theorem unforced_refusals (E : Env K) (P : OverlapPar K) (src band : Spec K) (binset : Option (List K))
+    (useC : Bool) (hs : src.kind = .source) (hb : band.kind = .bandpass) (v : Verdict)
+    (hv : checkOverlap E P band src Option.none = .ok v) :
+    ((v = .partialMost ∨ v = .partialNotMost) →
+      mkObs E P src band binset .none useC = .error .partialOverlap) ∧
+    (v = .none → mkObs E P src band binset .none useC = .error .disjointError) := by
+  have h := unforced_outcome E P src band
+  rw [hv] at h
+  refine ⟨?_, ?_⟩
+  · rintro (rfl | rfl) <;> exact mkObs_refused E P src band binset .none useC hs hb _ h
+  · rintro rfl; exact mkObs_refused E P src band binset .none useC hs hb _ h
+
+/-- an observation constructed without `force` had verdict 'full'; it stores the operands untouched and no
+warning -/
+theorem unforced_observation (E : Env K) (P : OverlapPar K) (src band : Spec K) (binset : Option (List K))
+    (useC : Bool) (o : Obs K) (h : mkObs E P src band binset .none useC = .ok o) :
+    checkOverlap E P band src Option.none = .ok .full ∧ o.src = src ∧ o.band = band ∧ o.warned = false := by
+  obtain ⟨_, _, ha, hb, _⟩ := mkObs_ok h
+  rw [unforced_outcome] at ha
+  cases hc : checkOverlap E P band src Option.none with
+  | error e => rw [hc] at ha; cases ha
+  | ok v =>
+    rw [hc] at ha
+    cases v <;> first | cases ha | skip
+    simp only [Except.ok.injEq, Prod.mk.injEq] at ha
+    exact ⟨rfl, ha.1.symm, hb, ha.2.symm⟩
+
+/-- in terms of ranges: an admission without `force` means that the source has no sampling set of its own
+(unbounded), or every sampled bandpass wavelength with positive throughput lies inside the range `[lo, hi]`
+of the source's sampling set, or the source is a zero-ended table / a non-compound analytic model that is
+(within `allclose`) zero at the first and the last wavelength of the bandpass's sampling set.
+("Non-zero throughput" is `y1 > 0` in the code: a negative sample does not count.) -/
+theorem unforced_admitted_range (E : Env K) (P : OverlapPar K) (src band s : Spec K) (w : Bool)
+    (h : obsAdmit E P src band .none = .ok (s, w)) :
+    s = src ∧ w = false ∧ ∃ bm om, band.model = .ok bm ∧ src.model = .ok om ∧
+      (om.waveset P.mergeThr = .ok Option.none ∨
+       ∃ x1 b lo hi, bm.waveset P.mergeThr = .ok (some x1) ∧ om.waveset P.mergeThr = .ok (some b) ∧
+         lo ∈ b ∧ hi ∈ b ∧ (∀ u ∈ b, lo ≤ u ∧ u ≤ hi) ∧
+         ((∀ x ∈ x1, ∀ y, bm.eval E x = .ok y → 0 < y → lo ≤ x ∧ x ≤ hi) ∨
+          (shortcutKind om = true ∧ ∃ f l vf vl, x1.head? = some f ∧ x1.getLast? = some l ∧
+            om.eval E f = .ok vf ∧ om.eval E l = .ok vl ∧ |vf| ≤ P.allcloseAtol ∧ |vl| ≤ P.allcloseAtol))) := by
+  rw [unforced_outcome] at h
+  cases hc : checkOverlap E P band src Option.none with
+  | error e => rw [hc] at h; cases h
+  | ok v =>
+    rw [hc] at h
+    cases v <;> cases h
+    refine ⟨rfl, rfl, ?_⟩
+    obtain ⟨bm, om, hbm, hom, hcase⟩ := sampled_of_answer E P band src .full hc
+    refine ⟨bm, om, hbm, hom, ?_⟩
+    rcases hcase with ⟨ho, _⟩ | ⟨b, _, _, hv⟩ | ⟨x1, y1, b, a1, a2, b1, b2, S⟩
+    · exact Or.inl ho
+    · cases hv
+    · right
+      obtain ⟨hb1, hb1'⟩ := listMin_spec b b1 S.h3
+      obtain ⟨hb2, hb2'⟩ := listMax_spec b b2 S.h4
+      refine ⟨x1, b, b1, b2, S.hb, S.ho, hb1, hb2, fun u hu => ⟨hb1' u hu, hb2' u hu⟩, ?_⟩
+      rcases (classifier_full_iff E P band src bm om x1 y1 b a1 a2 b1 b2 S .full hc).mp rfl with
+        hin | ⟨_, _, hk, ends, he, hz⟩
+      · left
+        intro x hx y hy hpos
+        have hm := support_complete E bm x1 y1 S.hy x hx y hy hpos
+        exact ⟨le_trans hin.1 ((listMin_spec _ a1 S.h1).2 x hm), le_trans ((listMax_spec _ a2 S.h2).2 x hm) hin.2⟩
+      · right
+        exact ⟨hk, ends_near_zero E om x1 ends P.allcloseAtol S.x1_ne_nil he hz⟩
+
+/-! ### with force -/
+
+/-- an unknown `force` value is rejected (`SynphotError`) — on a partially overlapping pair; the value is
+not looked at otherwise (`admit_table`: 'full' admits, 'none' raises `DisjointError`) -/
+theorem invalid_force_rejected (E : Env K) (P : OverlapPar K) (src band : Spec K) (binset : Option (List K))
+    (useC : Bool) (str : String) (hs : src.kind = .source) (hb : band.kind = .bandpass)
+    (hstr : str.toLower ≠ "none" ∧ str.toLower ≠ "taper" ∧ str.toLower.startsWith "extrap" = false)
+    (v : Verdict) (hv : checkOverlap E P band src Option.none = .ok v)
+    (hp : v = .partialMost ∨ v = .partialNotMost) :
+    mkObs E P src band binset (Force.ofString str) useC = .error .synphotError := by
+  rw [(force_invalid_iff str).mpr hstr]
+  exact mkObs_refused E P src band binset .invalid useC hs hb _
+    (((admit_table E P src band .invalid v hv).2.2 hp).2.1 rfl)
+
+/-- forced TAPER on a partially overlapping pair whose source is a table (unredshifted, positive ascending
+wavelengths): the admission succeeds with a warning; the source it returns is unchanged inside the table's
+range `[x₀, xₙ]` and zero beyond the end points of the tapered table — the added points `x₀²/x₁`,
+`xₙ²/xₙ₋₁` where the end value was non-zero, the table's own end where it already was zero -/
+theorem forced_taper_z0 (E : Env K) (P : OverlapPar K) (src band : Spec K) (t : Table K) (x0 x1 : K) (xs : List K)
+    (ht : src.tree = .leaf (.table t)) (hz : src.zs.z = 0) (hp : t.pts = x0 :: x1 :: xs)
+    (hw : C03.WF t) (hc : C03.Clipped t) (hpos : 0 < x0)
+    (v : Verdict) (hv : checkOverlap E P band src Option.none = .ok v)
+    (hpart : v = .partialMost ∨ v = .partialNotMost) :
+    ∃ s, obsAdmit E P src band .taper = .ok (s, true) ∧
+      (∀ x, x0 ≤ x → x ≤ t.pts.getLastD 0 → s.evalAt E x = .ok (t.eval x)) ∧
+      (∀ x, x < (if t.vals.headD 0 = 0 then x0 else x0 ^ 2 / x1) → s.evalAt E x = .ok 0) ∧
+      (∀ x, (if t.vals.getLastD 0 = 0 then t.pts.getLastD 0 else highEnd t) < x → s.evalAt E x = .ok 0) := by
+  have hval : validateWavelengths t.pts = .ok () := by
+    rw [hp]; exact validate_of_asc x0 (x1 :: xs) (hp ▸ hw.asc) hpos
+  have htap := spec_taper_table E P.mergeThr src t x0 x1 xs ht hz hp hval
+  have hadm := (((admit_table E P src band .taper v hv).2.2 hpart).2.2.2 rfl) _ htap
+  have hsrc : ∀ x, src.evalAt E x = .ok (t.eval x) := by
+    intro x
+    simp only [Spec.evalAt, model_z0 src hz, ht, ok_bind'', Tree.eval, Leaf.eval]
+  have hlo : lowEnd t = x0 ^ 2 / x1 := by simp only [lowEnd, hp, List.headD_cons, List.tail_cons]
+  cases htt : t.taper with
+  | none =>
+    -- both end values are zero: the source itself
+    rw [htt] at hadm
+    have hends : t.vals.headD 0 = 0 ∧ t.vals.getLastD 0 = 0 := by
+      rw [taper_explicit t x0 x1 xs hp hw hc hpos] at htt
+      by_contra hn
+      rw [if_neg hn] at htt; cases htt
+    refine ⟨src, hadm, fun x _ _ => hsrc x, ?_, ?_⟩
+    · intro x hx
+      rw [if_pos hends.1] at hx
+      rw [hsrc x, eval_outside_zero t (Or.inr hends) x (Or.inl (by rw [hp]; exact hx))]
+    · intro x hx
+      rw [if_pos hends.2] at hx
+      rw [hsrc x, eval_outside_zero t (Or.inr hends) x (Or.inr hx)]
+  | some t' =>
+    rw [htt] at hadm
+    obtain ⟨hin, _, _⟩ := C03.taper_inside_unchanged t x0 x1 xs hp hw hc hpos t' htt
+    obtain ⟨hfill, _, hh, hl⟩ := taper_some_props t x0 x1 xs hp hw hc hpos t' htt
+    have hs' : ∀ x, (Spec.ofTree src.kind (.leaf (.table t'))).evalAt E x = .ok (t'.eval x) := by
+      intro x; rw [ofTree_evalAt]; rfl
+    refine ⟨Spec.ofTree src.kind (.leaf (.table t')), hadm, ?_, ?_, ?_⟩
+    · intro x h0 hn; rw [hs' x, hin x h0 hn]
+    · intro x hx
+      rw [← hlo, ← hh] at hx
+      rw [hs' x, eval_outside_zero t' (Or.inl hfill) x (Or.inl hx)]
+    · intro x hx
+      rw [← hl] at hx
+      rw [hs' x, eval_outside_zero t' (Or.inl hfill) x (Or.inr hx)]
+
+/-- … and between an added end point and the table's own end the tapered source is the straight line from
+zero to the end value (`chord`: the line through two knots) -/
+theorem forced_taper_ramps_z0 (E : Env K) (P : OverlapPar K) (src band : Spec K) (t : Table K) (x0 x1 : K)
+    (xs : List K) (ht : src.tree = .leaf (.table t)) (hz : src.zs.z = 0) (hp : t.pts = x0 :: x1 :: xs)
+    (hw : C03.WF t) (hc : C03.Clipped t) (hpos : 0 < x0)
+    (v : Verdict) (hv : checkOverlap E P band src Option.none = .ok v)
+    (hpart : v = .partialMost ∨ v = .partialNotMost) :
+    ∃ s, obsAdmit E P src band .taper = .ok (s, true) ∧
+      (t.vals.headD 0 ≠ 0 → ∀ x, x0 ^ 2 / x1 ≤ x → x ≤ x0 →
+        s.evalAt E x = .ok (chord ((x0 ^ 2 / x1, 0), (x0, t.vals.headD 0)) x)) ∧
+      (t.vals.getLastD 0 ≠ 0 → ∀ x, t.pts.getLastD 0 ≤ x → x ≤ highEnd t →
+        s.evalAt E x = .ok (chord ((t.pts.getLastD 0, t.vals.getLastD 0), (highEnd t, 0)) x)) := by
+  have hval : validateWavelengths t.pts = .ok () := by
+    rw [hp]; exact validate_of_asc x0 (x1 :: xs) (hp ▸ hw.asc) hpos
+  have htap := spec_taper_table E P.mergeThr src t x0 x1 xs ht hz hp hval
+  have hadm := (((admit_table E P src band .taper v hv).2.2 hpart).2.2.2 rfl) _ htap
+  have hlo : lowEnd t = x0 ^ 2 / x1 := by simp only [lowEnd, hp, List.headD_cons, List.tail_cons]
+  cases htt : t.taper with
+  | none =>
+    rw [htt] at hadm
+    have hends : t.vals.headD 0 = 0 ∧ t.vals.getLastD 0 = 0 := by
+      rw [taper_explicit t x0 x1 xs hp hw hc hpos] at htt
+      by_contra hn
+      rw [if_neg hn] at htt; cases htt
+    exact ⟨src, hadm, fun h => absurd hends.1 h, fun h => absurd hends.2 h⟩
+  | some t' =>
+    rw [htt] at hadm
+    obtain ⟨hr1, hr2⟩ := taper_ramps t x0 x1 xs hp hw hc hpos t' htt
+    have hs' : ∀ x, (Spec.ofTree src.kind (.leaf (.table t'))).evalAt E x = .ok (t'.eval x) := by
+      intro x; rw [ofTree_evalAt]; rfl
+    refine ⟨Spec.ofTree src.kind (.leaf (.table t')), hadm, ?_, ?_⟩
+    · intro h1 x hx1 hx2
+      rw [hs' x, ← hlo, hr1 h1 x (by rw [hlo]; exact hx1) hx2]
+    · intro h2 x hx1 hx2
+      rw [hs' x, hr2 h2 x hx1 hx2]
+
+/-- forced TAPER on a partially overlapping pair whose source is a table, in ANY redshift state with
+`1 + z > 0` (otherwise its wavelengths are not valid) and a positive flux factor.  Let `T` be the table as
+observed (`obsTable`: points × (1 + z), values × flux factor; `T = t` at z = 0, `obsTable_of_z0`); the source
+samples to `T` everywhere.  The admission succeeds with a warning and the source it returns is unchanged inside
+`T`'s range, zero beyond the end points of the tapered table (the added points `lowEnd T = (1+z)·x₀²/x₁`,
+`highEnd T = (1+z)·xₙ²/xₙ₋₁` where the end value was non-zero, `T`'s own end where it was zero), and the
+straight line from zero to the end value in between -/
+theorem forced_taper (E : Env K) (P : OverlapPar K) (src band : Spec K) (t : Table K) (x0 x1 : K) (xs : List K)
+    (ht : src.tree = .leaf (.table t)) (hp : t.pts = x0 :: x1 :: xs)
+    (hw : C03.WF t) (hc : C03.Clipped t) (hpos : 0 < x0) (hz : 0 < restScale src) (hk : 0 < fluxFactor src)
+    (v : Verdict) (hv : checkOverlap E P band src Option.none = .ok v)
+    (hpart : v = .partialMost ∨ v = .partialNotMost) :
+    ∃ s, obsAdmit E P src band .taper = .ok (s, true) ∧
+      (∀ x, src.evalAt E x = .ok ((obsTable src t).eval x)) ∧
+      (∀ x, (obsTable src t).pts.headD 0 ≤ x → x ≤ (obsTable src t).pts.getLastD 0 →
+        s.evalAt E x = src.evalAt E x) ∧
+      (∀ x, x < (if (obsTable src t).vals.headD 0 = 0 then (obsTable src t).pts.headD 0
+          else lowEnd (obsTable src t)) → s.evalAt E x = .ok 0) ∧
+      (∀ x, (if (obsTable src t).vals.getLastD 0 = 0 then (obsTable src t).pts.getLastD 0
+          else highEnd (obsTable src t)) < x → s.evalAt E x = .ok 0) ∧
+      ((obsTable src t).vals.headD 0 ≠ 0 → ∀ x, lowEnd (obsTable src t) ≤ x → x ≤ (obsTable src t).pts.headD 0 →
+        s.evalAt E x = .ok (chord ((lowEnd (obsTable src t), 0),
+          ((obsTable src t).pts.headD 0, (obsTable src t).vals.headD 0)) x)) ∧
+      ((obsTable src t).vals.getLastD 0 ≠ 0 → ∀ x, (obsTable src t).pts.getLastD 0 ≤ x →
+        x ≤ highEnd (obsTable src t) →
+        s.evalAt E x = .ok (chord (((obsTable src t).pts.getLastD 0, (obsTable src t).vals.getLastD 0),
+          (highEnd (obsTable src t), 0)) x)) := by
+  obtain ⟨_, om, _, hom, _⟩ := co_cases E P band src v hv
+  have hT : (obsTable src t).pts = x0 * restScale src :: x1 * restScale src :: xs.map (· * restScale src) := by
+    rw [obsTable_pts, hp]; rfl
+  have hwT := scaleTable_wf t (restScale src) (fluxFactor src) hz hw
+  have hcT := scaleTable_clipped t (restScale src) (fluxFactor src) (le_of_lt hk) hc
+  have hposT : 0 < x0 * restScale src := mul_pos hpos hz
+  have hsrc : ∀ x, src.evalAt E x = .ok ((obsTable src t).eval x) :=
+    obsTable_evalAt E src t ht om hom hz (le_of_lt hk)
+  have htap := spec_taper_obs E P.mergeThr src t x0 x1 xs ht om hom hp hw hpos hz hk
+  have hadm := (((admit_table E P src band .taper v hv).2.2 hpart).2.2.2 rfl) _ htap
+  have hhead : (obsTable src t).pts.headD 0 = x0 * restScale src := by rw [hT]; rfl
+  cases htt : (obsTable src t).taper with
+  | none =>
+    rw [htt] at hadm
+    have hends : (obsTable src t).vals.headD 0 = 0 ∧ (obsTable src t).vals.getLastD 0 = 0 := by
+      rw [taper_explicit _ _ _ _ hT hwT hcT hposT] at htt
+      by_contra hn
+      rw [if_neg hn] at htt; cases htt
+    refine ⟨src, hadm, hsrc, fun x _ _ => rfl, ?_, ?_, fun h => absurd hends.1 h, fun h => absurd hends.2 h⟩
+    · intro x hx
+      rw [if_pos hends.1] at hx
+      rw [hsrc x, eval_outside_zero _ (Or.inr hends) x (Or.inl hx)]
+    · intro x hx
+      rw [if_pos hends.2] at hx
+      rw [hsrc x, eval_outside_zero _ (Or.inr hends) x (Or.inr hx)]
+  | some t' =>
+    rw [htt] at hadm
+    obtain ⟨hin, _, _⟩ := C03.taper_inside_unchanged _ _ _ _ hT hwT hcT hposT t' htt
+    obtain ⟨hfill, _, hh, hl⟩ := taper_some_props _ _ _ _ hT hwT hcT hposT t' htt
+    obtain ⟨hr1, hr2⟩ := taper_ramps _ _ _ _ hT hwT hcT hposT t' htt
+    have hs' : ∀ x, (Spec.ofTree src.kind (.leaf (.table t'))).evalAt E x = .ok (t'.eval x) := by
+      intro x; rw [ofTree_evalAt]; rfl
+    refine ⟨Spec.ofTree src.kind (.leaf (.table t')), hadm, hsrc, ?_, ?_, ?_, ?_, ?_⟩
+    · intro x h0 hn; rw [hs' x, hsrc x, hin x (by rw [← hhead]; exact h0) hn]
+    · intro x hx
+      rw [hhead, ← hh] at hx
+      rw [hs' x, eval_outside_zero t' (Or.inl hfill) x (Or.inl hx)]
+    · intro x hx
+      rw [← hl] at hx
+      rw [hs' x, eval_outside_zero t' (Or.inl hfill) x (Or.inr hx)]
+    · intro h1 x hx1 hx2
+      rw [hs' x, hhead, hr1 h1 x hx1 (by rw [← hhead]; exact hx2)]
+    · intro h2 x hx1 hx2
+      rw [hs' x, hr2 h2 x hx1 hx2]
+
+/-- forced EXTRAP on a partially overlapping pair whose source is a table, in ANY redshift state: the
+admission succeeds with a warning; the source it returns is the same object with the table's fill rule
+switched to "nearest end".  With `u` the rest-frame wavelength of `x` (`x/(1+z)`, `x` itself at z = 0) and `k`
+the flux factor (1 unless `conserve_flux`): unchanged where `u` is inside the table's range, held at the
+first value where `u` is below it and at the last value where `u` is above it -/
+theorem forced_extrap (E : Env K) (P : OverlapPar K) (src band : Spec K) (t : Table K)
+    (ht : src.tree = .leaf (.table t)) (hw : C03.WF t) (hc : C03.Clipped t)
+    (v : Verdict) (hv : checkOverlap E P band src Option.none = .ok v)
+    (hpart : v = .partialMost ∨ v = .partialNotMost) :
+    ∃ s, obsAdmit E P src band .extrap = .ok (s, true) ∧
+      s = { src with tree := .leaf (.table t.forceExtrap) } ∧
+      ∀ x, src.evalAt E x = .ok (t.eval (restWave src x) * fluxFactor src) ∧
+        (t.pts.headD 0 ≤ restWave src x → restWave src x ≤ t.pts.getLastD 0 → s.evalAt E x = src.evalAt E x) ∧
+        (restWave src x < t.pts.headD 0 → s.evalAt E x = .ok (t.vals.headD 0 * fluxFactor src)) ∧
+        (t.pts.getLastD 0 < restWave src x → s.evalAt E x = .ok (t.vals.getLastD 0 * fluxFactor src)) := by
+  have hadm := ((admit_table E P src band .extrap v hv).2.2 hpart).2.2.1 rfl
+  have hfe : (src.forceExtrap).1 = { src with tree := .leaf (.table t.forceExtrap) } := by
+    simp only [Spec.forceExtrap, ht]
+  rw [hfe] at hadm
+  obtain ⟨_, om, _, hom, _⟩ := co_cases E P band src v hv
+  obtain ⟨m', hm'⟩ := model_ok_swap src (.leaf (.table t.forceExtrap)) om hom
+  have hsrc : ∀ x, src.evalAt E x = .ok (t.eval (restWave src x) * fluxFactor src) :=
+    table_evalAt E src t ht om hom
+  have hs : ∀ x, ({ src with tree := .leaf (.table t.forceExtrap) } : Spec K).evalAt E x =
+      .ok (t.forceExtrap.eval (restWave src x) * fluxFactor src) := fun x =>
+    table_evalAt E _ t.forceExtrap rfl m' hm' x
+  refine ⟨_, hadm, rfl, fun x => ⟨hsrc x, ?_, ?_, ?_⟩⟩
+  · intro h0 hn; rw [hs x, hsrc x, forceExtrap_inside t _ h0 hn]
+  · intro hx
+    rw [hs x, extrap_holds_end_value t _ hx (clipped_head t hc)]
+  · intro hx
+    have hle := head_le_last t.pts hw.asc
+    have := C03.eval_above t.forceExtrap _ (not_lt.mpr (le_of_lt (lt_of_le_of_lt hle hx))) hx
+      (by simpa [Table.forceExtrap] using clipped_last t hc)
+    rw [hs x, this]; simp [Table.forceExtrap]
+
+/-- forced EXTRAP when the source's own model is not a table (analytic or compound): nothing to switch — the
+operand is used as it is, evaluated outside its sampling set, and the warning is recorded all the same -/
+theorem forced_extrap_not_table (E : Env K) (P : OverlapPar K) (src band : Spec K)
+    (hnt : src.tree.rootTable? = Option.none)
+    (v : Verdict) (hv : checkOverlap E P band src Option.none = .ok v)
+    (hpart : v = .partialMost ∨ v = .partialNotMost) :
+    obsAdmit E P src band .extrap = .ok (src, true) := by
+  have hadm := ((admit_table E P src band .extrap v hv).2.2 hpart).2.2.1 rfl
+  have : (src.forceExtrap).1 = src := by
+    unfold Spec.forceExtrap
+    cases htr : src.tree with
+    | leaf l => cases l <;> first | rfl | (rw [htr] at hnt; simp [Tree.rootTable?] at hnt)
+    | bin _ _ _ => rfl
+    | scale _ _ => rfl
+    | redshift _ _ => rfl
+  rw [this] at hadm; exact hadm
+
+/-! ### the constructed observation -/
+
+/-- a constructed observation stores the source as admitted (original / tapered / extrapolating), the
+bandpass, and the admission's warning flag; both operands had the right class -/
+theorem obs_fields (E : Env K) (P : OverlapPar K) (src band : Spec K) (binset : Option (List K))
+    (force : Force) (useC : Bool) (o : Obs K) (h : mkObs E P src band binset force useC = .ok o) :
+    src.kind = .source ∧ band.kind = .bandpass ∧ obsAdmit E P src band force = .ok (o.src, o.warned) ∧
+      o.band = band := by
+  obtain ⟨h1, h2, h3, h4, _⟩ := mkObs_ok h
+  exact ⟨h1, h2, h3, h4⟩
+
+/-- at EVERY wavelength, sampling the observation is: sample the admitted source, sample the bandpass,
+multiply — including which of the two fails first when one does (`obs_eval` is the successful case) -/
+theorem obs_eval_eq (E : Env K) (P : OverlapPar K) (src band : Spec K) (binset : Option (List K))
+    (force : Force) (useC : Bool) (o : Obs K) (h : mkObs E P src band binset force useC = .ok o) (x : K) :
+    o.model.eval E x = (do let a ← o.src.evalAt E x; let b ← o.band.evalAt E x; pure (a * b)) := by
+  obtain ⟨_, _, _, hb, sm, bm, hsm, hbm, hm⟩ := mkObs_ok h
+  exact obs_model_eval E o band sm bm hb hsm hbm hm x
+
+/-- the warning is recorded exactly for a partially overlapping pair, and a fully overlapping pair is
+stored untouched whatever `force` says -/
+theorem warning_iff_partial (E : Env K) (P : OverlapPar K) (src band : Spec K) (binset : Option (List K))
+    (force : Force) (useC : Bool) (o : Obs K) (h : mkObs E P src band binset force useC = .ok o)
+    (v : Verdict) (hv : checkOverlap E P band src Option.none = .ok v) :
+    (o.warned = true ↔ (v = .partialMost ∨ v = .partialNotMost)) ∧ (v = .full → o.src = src) ∧ v ≠ .none := by
+  obtain ⟨_, _, ha, _⟩ := obs_fields E P src band binset force useC o h
+  have hT := admit_table E P src band force v hv
+  have key : ∀ (hp : v = .partialMost ∨ v = .partialNotMost), o.warned = true := by
+    intro hp
+    obtain ⟨h1, h2, h3, h4⟩ := hT.2.2 hp
+    cases force with
+    | none => rw [h1 rfl] at ha; cases ha
+    | invalid => rw [h2 rfl] at ha; cases ha
+    | extrap =>
+      rw [h3 rfl] at ha
+      simp only [Except.ok.injEq, Prod.mk.injEq] at ha
+      exact ha.2.symm
+    | taper =>
+      cases htp : src.taper E P.mergeThr Option.none with
+      | error e =>
+        have : obsAdmit E P src band .taper = .error e := by
+          rcases hp with rfl | rfl <;> simp [obsAdmit, hv, htp, bind, Except.bind]
+        rw [this] at ha; cases ha
+      | ok r =>
+        rw [h4 rfl r htp] at ha
+        simp only [Except.ok.injEq, Prod.mk.injEq] at ha
+        exact ha.2.symm
+  cases v with
+  | none => rw [hT.1 rfl] at ha; cases ha
+  | full =>
+    rw [hT.2.1 rfl] at ha
+    simp only [Except.ok.injEq, Prod.mk.injEq] at ha
+    refine ⟨⟨fun hw => ?_, fun hp => ?_⟩, fun _ => ha.1.symm, by simp⟩
+    · rw [← ha.2] at hw; cases hw
+    · rcases hp with hp | hp <;> cases hp
+  | partialMost => exact ⟨⟨fun _ => Or.inl rfl, fun hp => key hp⟩, fun hf => (by cases hf), (by simp)⟩
+  | partialNotMost => exact ⟨⟨fun _ => Or.inr rfl, fun hp => key hp⟩, fun hf => (by cases hf), (by simp)⟩
+
+/-- without `force`: the observation samples to source(L) × bandpass(L) with the ORIGINAL source, at every L -/
+theorem obs_eval_unforced (E : Env K) (P : OverlapPar K) (src band : Spec K) (binset : Option (List K))
+    (useC : Bool) (o : Obs K) (h : mkObs E P src band binset .none useC = .ok o) (x : K) :
+    o.model.eval E x = (do let a ← src.evalAt E x; let b ← band.evalAt E x; pure (a * b)) := by
+  obtain ⟨_, hs, hb, _⟩ := unforced_observation E P src band binset useC o h
+  rw [obs_eval_eq E P src band binset .none useC o h x, hs, hb]
+
+/-- forced TAPER, the observation: warning recorded; at every L where the bandpass samples to `vb`, the
+observation is table(L) × vb inside the table's range and 0 beyond the tapered table's end points -/
+theorem obs_eval_taper_z0 (E : Env K) (P : OverlapPar K) (src band : Spec K) (binset : Option (List K))
+    (useC : Bool) (o : Obs K) (h : mkObs E P src band binset .taper useC = .ok o)
+    (t : Table K) (x0 x1 : K) (xs : List K)
+    (ht : src.tree = .leaf (.table t)) (hz : src.zs.z = 0) (hp : t.pts = x0 :: x1 :: xs)
+    (hw : C03.WF t) (hc : C03.Clipped t) (hpos : 0 < x0)
+    (v : Verdict) (hv : checkOverlap E P band src Option.none = .ok v)
+    (hpart : v = .partialMost ∨ v = .partialNotMost) :
+    o.warned = true ∧ ∀ x vb, band.evalAt E x = .ok vb →
+      ((x0 ≤ x → x ≤ t.pts.getLastD 0 → o.model.eval E x = .ok (t.eval x * vb)) ∧
+       (x < (if t.vals.headD 0 = 0 then x0 else x0 ^ 2 / x1) → o.model.eval E x = .ok 0) ∧
+       ((if t.vals.getLastD 0 = 0 then t.pts.getLastD 0 else highEnd t) < x → o.model.eval E x = .ok 0)) := by
+  obtain ⟨_, _, ha, hb⟩ := obs_fields E P src band binset .taper useC o h
+  obtain ⟨s, hs, hin, hlo, hhi⟩ := forced_taper_z0 E P src band t x0 x1 xs ht hz hp hw hc hpos v hv hpart
+  rw [hs] at ha
+  simp only [Except.ok.injEq, Prod.mk.injEq] at ha
+  refine ⟨ha.2.symm, ?_⟩
+  intro x vb hvb
+  have he := obs_eval_eq E P src band binset .taper useC o h x
+  rw [← ha.1, hb, hvb] at he
+  refine ⟨fun h0 hn => ?_, fun hx => ?_, fun hx => ?_⟩
+  · rw [he, hin x h0 hn]; rfl
+  · rw [he, hlo x hx]; show Except.ok (0 * vb) = _; rw [zero_mul]
+  · rw [he, hhi x hx]; show Except.ok (0 * vb) = _; rw [zero_mul]
+
+/-- forced TAPER, the observation, for a tabulated source in any redshift state (`T` the table as observed):
+warning recorded; at every L where the bandpass samples to `vb`, the observation is T(L) × vb inside `T`'s
+range and 0 beyond the tapered table's end points -/
+theorem obs_eval_taper (E : Env K) (P : OverlapPar K) (src band : Spec K) (binset : Option (List K))
+    (useC : Bool) (o : Obs K) (h : mkObs E P src band binset .taper useC = .ok o)
+    (t : Table K) (x0 x1 : K) (xs : List K)
+    (ht : src.tree = .leaf (.table t)) (hp : t.pts = x0 :: x1 :: xs)
+    (hw : C03.WF t) (hc : C03.Clipped t) (hpos : 0 < x0) (hz : 0 < restScale src) (hk : 0 < fluxFactor src)
+    (v : Verdict) (hv : checkOverlap E P band src Option.none = .ok v)
+    (hpart : v = .partialMost ∨ v = .partialNotMost) :
+    o.warned = true ∧ ∀ x vb, band.evalAt E x = .ok vb →
+      (((obsTable src t).pts.headD 0 ≤ x → x ≤ (obsTable src t).pts.getLastD 0 →
+          o.model.eval E x = .ok ((obsTable src t).eval x * vb)) ∧
+       (x < (if (obsTable src t).vals.headD 0 = 0 then (obsTable src t).pts.headD 0
+          else lowEnd (obsTable src t)) → o.model.eval E x = .ok 0) ∧
+       ((if (obsTable src t).vals.getLastD 0 = 0 then (obsTable src t).pts.getLastD 0
+          else highEnd (obsTable src t)) < x → o.model.eval E x = .ok 0)) := by
+  obtain ⟨_, _, ha, hb⟩ := obs_fields E P src band binset .taper useC o h
+  obtain ⟨s, hs, hsrc, hin, hlo, hhi, _⟩ := forced_taper E P src band t x0 x1 xs ht hp hw hc hpos hz hk v hv hpart
+  rw [hs] at ha
+  simp only [Except.ok.injEq, Prod.mk.injEq] at ha
+  refine ⟨ha.2.symm, ?_⟩
+  intro x vb hvb
+  have he := obs_eval_eq E P src band binset .taper useC o h x
+  rw [← ha.1, hb, hvb] at he
+  refine ⟨fun h0 hn => ?_, fun hx => ?_, fun hx => ?_⟩
+  · rw [he, hin x h0 hn, hsrc x]; rfl
+  · rw [he, hlo x hx]; show Except.ok (0 * vb) = _; rw [zero_mul]
+  · rw [he, hhi x hx]; show Except.ok (0 * vb) = _; rw [zero_mul]
+
+/-- forced EXTRAP, the observation (any redshift state of the source): warning recorded; at every L where the
+bandpass samples to `vb`, with `u` the rest-frame wavelength of L and `k` the flux factor, the observation is
+table(u)·k × vb where `u` is inside the table's range, (first value)·k × vb below it, (last value)·k × vb above -/
+theorem obs_eval_extrap (E : Env K) (P : OverlapPar K) (src band : Spec K) (binset : Option (List K))
+    (useC : Bool) (o : Obs K) (h : mkObs E P src band binset .extrap useC = .ok o)
+    (t : Table K) (ht : src.tree = .leaf (.table t)) (hw : C03.WF t) (hc : C03.Clipped t)
+    (v : Verdict) (hv : checkOverlap E P band src Option.none = .ok v)
+    (hpart : v = .partialMost ∨ v = .partialNotMost) :
+    o.warned = true ∧ ∀ x vb, band.evalAt E x = .ok vb →
+      ((t.pts.headD 0 ≤ restWave src x → restWave src x ≤ t.pts.getLastD 0 →
+          o.model.eval E x = .ok (t.eval (restWave src x) * fluxFactor src * vb)) ∧
+       (restWave src x < t.pts.headD 0 → o.model.eval E x = .ok (t.vals.headD 0 * fluxFactor src * vb)) ∧
+       (t.pts.getLastD 0 < restWave src x → o.model.eval E x = .ok (t.vals.getLastD 0 * fluxFactor src * vb))) := by
+  obtain ⟨_, _, ha, hb⟩ := obs_fields E P src band binset .extrap useC o h
+  obtain ⟨s, hs, _, hx⟩ := forced_extrap E P src band t ht hw hc v hv hpart
+  rw [hs] at ha
+  simp only [Except.ok.injEq, Prod.mk.injEq] at ha
+  refine ⟨ha.2.symm, ?_⟩
+  intro x vb hvb
+  obtain ⟨hsrc, hin, hlo, hhi⟩ := hx x
+  have he := obs_eval_eq E P src band binset .extrap useC o h x
+  rw [← ha.1, hb, hvb] at he
+  refine ⟨fun h0 hn => ?_, fun hx => ?_, fun hx => ?_⟩
+  · rw [he, hin h0 hn, hsrc]; rfl
+  · rw [he, hlo hx]; rfl
+  · rw [he, hhi hx]; rfl
+
+/-! ### non-vacuity: concrete rational tables (`Lemmas/C06x.lean`, namespace `W`)
+
+Bandpass tabulated at 2, 4, 6, 8 Å with throughput 1; sources tabulated on [3, 5] with non-zero ends (`W.src`,
+partial), on [3, 5] with zero ends (`W.srcZ`, the shortcut), on [1, 9] (`W.srcW`, contained), on [10, 11]
+(`W.srcF`, disjoint), and a flat analytic source (`W.srcFlat`, no sampling set). -/
+
+section NonVacuity
+open W
+
+/-- thresholds 1% and 10% around an excluded fraction of 2% -/
+example : gradeVerdict .part false (1 : ℚ) 50 (1 / 100) = .partialNotMost ∧
+    gradeVerdict .part false (1 : ℚ) 50 (1 / 10) = .partialMost := by decide +kernel
+example := grade_threshold_mono .part false (1 : ℚ) 50 (1 / 100) (1 / 10) (by norm_num)
+example := grade_threshold_irrelevant .part true (1 : ℚ) 50 (1 / 100) (1 / 10)
+/-- exactly 1% excluded -/
+example : gradeVerdict .part false (1 : ℚ) 100 (1 / 100) = .partialNotMost :=
+  grade_boundary 1 100 (1 / 100) (by norm_num)
+
+example : Force.ofString "Bogus" = .invalid ∧ Force.ofString "ExTrApOlAtE" = .extrap ∧
+    Force.ofString "Taper" = .taper := by decide +kernel
+example : Force.ofString "tapered" = .invalid :=
+  (force_invalid_iff "tapered").mpr (by decide +kernel)
+example : Force.ofString "TAPER" = Force.ofString "taper" := force_case_insensitive _ _ (by decide +kernel)
+example := (force_values "EXTRAP").2.2.1
+
+/-- the flat source has no sampling set: 'full' -/
+example : checkOverlap E0 P0 band srcFlat Option.none = .ok .full :=
+  (classifier_unbounded E0 P0 band srcFlat _ _ band_model (ofTree_model _ _)).1 (by decide +kernel)
+
+/-- the partially overlapping pair: status of ([2, 8], [3, 5]) is 'partial'; no shortcut; graded -/
+example := classifier_sampled E0 P0 band src _ _ _ _ _ 2 8 3 5 (W.sampled srcT rfl) _ verdict_src
+example : ¬ ((8 : ℚ) < 3 ∨ (5 : ℚ) < 2) := by norm_num
+example := (classifier_none_iff E0 P0 band src _ _ _ _ _ 2 8 3 5 (W.sampled srcT rfl) _ verdict_src)
+example := classifier_partial_grade E0 P0 band src _ _ _ _ _ 2 8 3 5 (W.sampled srcT rfl) _ verdict_src
+  (by decide) (by decide)
+/-- the zero-ended source on the same range: 'full' through the shortcut only -/
+example : shortcutKind (Tree.leaf (Leaf.table zeroT)) = true ∧ ¬ ((3 : ℚ) ≤ 2 ∧ (8 : ℚ) ≤ 5) :=
+  ⟨by decide +kernel, by norm_num⟩
+example := (classifier_full_iff E0 P0 band srcZ _ _ _ _ _ 2 8 3 5 (W.sampled zeroT rfl) _ verdict_srcZ).mp rfl
+
+/-- without force: refused with `PartialOverlap` / `DisjointError`, admitted untouched for the other three -/
+example : obsAdmit E0 P0 src band .none = .error .partialOverlap := by
+  rw [unforced_outcome, verdict_src]
+example : obsAdmit E0 P0 srcF band .none = .error .disjointError := by
+  rw [unforced_outcome, verdict_srcF]
+example : obsAdmit E0 P0 srcW band .none = .ok (srcW, false) := by
+  rw [unforced_outcome, verdict_srcW]
+example : mkObs E0 P0 src band (some [4, 6]) .none true = .error .partialOverlap :=
+  (unforced_refusals E0 P0 src band _ true rfl rfl _ verdict_src).1 (Or.inr rfl)
+example : mkObs E0 P0 srcF band Option.none .none false = .error .disjointError :=
+  (unforced_refusals E0 P0 srcF band _ false rfl rfl _ verdict_srcF).2 rfl
+example : ∃ o, mkObs E0 P0 srcZ band (some [4, 6]) .none true = .ok o ∧ o.src = srcZ ∧ o.warned = false := by
+  obtain ⟨o, h⟩ := obs_unforced
+  obtain ⟨_, h1, _, h2⟩ := unforced_observation E0 P0 srcZ band _ true o h
+  exact ⟨o, h, h1, h2⟩
+example := unforced_admitted_range E0 P0 srcW band srcW false (by rw [unforced_outcome, verdict_srcW])
+example := unforced_admitted_range E0 P0 srcZ band srcZ false admit_srcZ
+
+/-- an unknown force value on the partially overlapping pair -/
+example : mkObs E0 P0 src band (some [4, 6]) (Force.ofString "Bogus") true = .error .synphotError :=
+  invalid_force_rejected E0 P0 src band _ true "Bogus" rfl rfl (by decide +kernel) _ verdict_src (Or.inr rfl)
+
+/-- forced taper of the table on [3, 5] with end values 2, 2: zero below 9/4 and above 25/4 -/
+example := forced_taper_z0 E0 P0 src band srcT 3 4 [5] rfl rfl rfl wf_srcT clipped_srcT (by norm_num) _ verdict_src
+  (Or.inr rfl)
+example : (3 : ℚ) ^ 2 / 4 = 9 / 4 ∧ highEnd srcT = 25 / 4 ∧ srcT.vals.headD 0 ≠ 0 ∧ srcT.vals.getLastD 0 ≠ 0 := by
+  decide +kernel
+example := forced_taper_ramps_z0 E0 P0 src band srcT 3 4 [5] rfl rfl rfl wf_srcT clipped_srcT (by norm_num) _
+  verdict_src (Or.inr rfl)
+/-- the same table at redshift 1 with `conserve_flux` (observed on [6, 10] at half the flux): tapered to zero
+beyond 9/2 and 25/2 -/
+example := forced_taper E0 P0 srcR band srcT 3 4 [5] rfl rfl wf_srcT clipped_srcT (by norm_num)
+  (by decide +kernel) (by decide +kernel) _ verdict_srcR (Or.inr rfl)
+example : (obsTable srcR srcT).pts = [6, 8, 10] ∧ (obsTable srcR srcT).vals = [1, 3 / 2, 1] ∧
+    lowEnd (obsTable srcR srcT) = 9 / 2 ∧ highEnd (obsTable srcR srcT) = 25 / 2 := by decide +kernel
+example : obsTable src srcT = srcT := obsTable_of_z0 src srcT rfl
+/-- forced extrapolation of the same table: held at 2 below 3 and above 5 -/
+example := forced_extrap E0 P0 src band srcT rfl wf_srcT clipped_srcT _ verdict_src (Or.inr rfl)
+/-- … and of the same table at redshift 1 with `conserve_flux`: rest-frame wavelength L/2, flux factor 1/2 -/
+example := forced_extrap E0 P0 srcR band srcT rfl wf_srcT clipped_srcT _ verdict_srcR (Or.inr rfl)
+example : restWave srcR 4 = 2 ∧ fluxFactor srcR = 1 / 2 ∧ restWave srcR 4 < srcT.pts.headD 0 := by decide +kernel
+
+/-- the three constructed observations -/
+example : ∃ o, mkObs E0 P0 src band (some [4, 6]) .taper true = .ok o ∧ o.warned = true ∧
+    o.model.eval E0 4 = .ok (3 * 1) ∧ o.model.eval E0 2 = .ok 0 ∧ o.model.eval E0 8 = .ok 0 := by
+  obtain ⟨o, h⟩ := obs_taper
+  obtain ⟨hw, he⟩ := obs_eval_taper_z0 E0 P0 src band _ true o h srcT 3 4 [5] rfl rfl rfl wf_srcT clipped_srcT
+    (by norm_num) _ verdict_src (Or.inr rfl)
+  have hb : ∀ x, band.evalAt E0 x = .ok (bandT.eval x) := fun x => rfl
+  refine ⟨o, h, hw, ?_, ?_, ?_⟩
+  · have := (he 4 _ (hb 4)).1 (by norm_num) (by decide +kernel)
+    rw [this]; exact congrArg _ (by decide +kernel)
+  · exact (he 2 _ (hb 2)).2.1 (by decide +kernel)
+  · exact (he 8 _ (hb 8)).2.2 (by decide +kernel)
+
+example : ∃ o, mkObs E0 P0 src band (some [4, 6]) .taper true = .ok o ∧ o.warned = true ∧
+    o.model.eval E0 2 = .ok 0 := by
+  obtain ⟨o, h⟩ := obs_taper
+  obtain ⟨hw, he⟩ := obs_eval_taper E0 P0 src band _ true o h srcT 3 4 [5] rfl rfl wf_srcT clipped_srcT
+    (by norm_num) (by decide +kernel) (by decide +kernel) _ verdict_src (Or.inr rfl)
+  have hb : ∀ x, band.evalAt E0 x = .ok (bandT.eval x) := fun x => rfl
+  exact ⟨o, h, hw, (he 2 _ (hb 2)).2.1 (by decide +kernel)⟩
+
+example : ∃ o, mkObs E0 P0 src band (some [4, 6]) .extrap true = .ok o ∧ o.warned = true ∧
+    o.model.eval E0 2 = .ok (2 * 1) ∧ o.model.eval E0 8 = .ok (2 * 1) := by
+  obtain ⟨o, h⟩ := obs_extrap
+  obtain ⟨hw, he⟩ := obs_eval_extrap E0 P0 src band _ true o h srcT rfl wf_srcT clipped_srcT _ verdict_src
+    (Or.inr rfl)
+  have hb : ∀ x, band.evalAt E0 x = .ok (bandT.eval x) := fun x => rfl
+  refine ⟨o, h, hw, ?_, ?_⟩
+  · have := (he 2 _ (hb 2)).2.1 (by decide +kernel)
+    rw [this]; exact congrArg _ (by decide +kernel)
+  · have := (he 8 _ (hb 8)).2.2 (by decide +kernel)
+    rw [this]; exact congrArg _ (by decide +kernel)
+
+example : ∃ o, mkObs E0 P0 srcZ band (some [4, 6]) .none true = .ok o ∧
+    ∀ x, o.model.eval E0 x = (do let a ← srcZ.evalAt E0 x; let b ← band.evalAt E0 x; pure (a * b)) := by
+  obtain ⟨o, h⟩ := obs_unforced
+  exact ⟨o, h, obs_eval_unforced E0 P0 srcZ band _ true o h⟩
+
+example : ∃ o, mkObs E0 P0 src band (some [4, 6]) .taper true = .ok o ∧ o.band = band ∧
+    ∀ x, o.model.eval E0 x = (do let a ← o.src.evalAt E0 x; let b ← o.band.evalAt E0 x; pure (a * b)) := by
+  obtain ⟨o, h⟩ := obs_taper
+  exact ⟨o, h, (obs_fields E0 P0 src band _ .taper true o h).2.2.2, obs_eval_eq E0 P0 src band _ .taper true o h⟩
+
+example : ∃ o, mkObs E0 P0 src band (some [4, 6]) .extrap true = .ok o ∧ o.warned = true := by
+  obtain ⟨o, h⟩ := obs_extrap
+  exact ⟨o, h, (warning_iff_partial E0 P0 src band _ .extrap true o h _ verdict_src).1.mpr (Or.inr rfl)⟩
+
+example : forced_extrap_not_table E0 P0 srcFlat band rfl = forced_extrap_not_table E0 P0 srcFlat band rfl := rfl
+
+end NonVacuity
 
 end Synphot.C06
